@@ -91,6 +91,59 @@ func queueAlphabet(cfg histCfg, w *World) []histAnswer {
 		// and not covered by the property) cannot look like a wrong value
 		stray("stray-system-guid-reply-first", 0x06, 0x37, w.BMC.Cfg.SystemGUID[:]),
 		stray("stray-chassis-status-reply-first", 0x00, 0x01, w.BMC.Cfg.Chassis),
+		// a reply of the command numbered 00h of the same network function ahead of the real one
+		{Answer: env.Answer{Name: "stray-command-00-of-the-same-netfn-first", Apply: func(t *env.Transport, rx *ref.Rx) {
+			if rx == nil || rx.Msg == nil {
+				return
+			}
+			if rx.Msg.Cmd != 0 {
+				fake := *rx
+				m := *rx.Msg
+				m.Cmd = 0
+				fake.Msg = &m
+				body := []byte{0x7F, 0x20, 0x20, 0x20, 0x20}
+				if m.NetFn == 0x2c && len(m.Data) > 0 {
+					body = append([]byte{m.Data[0]}, body...)
+				}
+				t.Enqueue(t.BMC.Respond(&fake, 0, body), "stray:command-00")
+			}
+			if b := t.BMC.Honest(rx); b != nil {
+				t.Enqueue(b, fmt.Sprintf("honest:%d", len(t.Log)-1))
+			}
+		}}, Class: clsFinal},
+		// the request itself comes back (request-direction message, correctly wrapped), then the real reply
+		{Answer: env.Answer{Name: "own-request-echoed-back-first", Apply: func(t *env.Transport, rx *ref.Rx) {
+			if rx == nil || rx.Msg == nil {
+				return
+			}
+			m := rx.Msg
+			t.Enqueue(t.BMC.WrapIPMI(rx.Sess, ref.BuildMsg(m.Addr1, m.NetFn, m.LUN1, m.Addr2, m.Seq, m.LUN2, m.Cmd, m.Data)), "stray:echo")
+			if b := t.BMC.Honest(rx); b != nil {
+				t.Enqueue(b, fmt.Sprintf("honest:%d", len(t.Log)-1))
+			}
+		}}, Class: clsFinal},
+		// only the echo comes back
+		{Answer: env.Answer{Name: "own-request-echoed-back-only", Apply: func(t *env.Transport, rx *ref.Rx) {
+			if rx == nil || rx.Msg == nil {
+				return
+			}
+			m := rx.Msg
+			t.Enqueue(t.BMC.WrapIPMI(rx.Sess, ref.BuildMsg(m.Addr1, m.NetFn, m.LUN1, m.Addr2, m.Seq, m.LUN2, m.Cmd, m.Data)), "stray:echo")
+		}}, Class: clsNothing},
+		// a stray reply of another command that carries a temporary code, and nothing else
+		{Answer: env.Answer{Name: "stray-busy-reply-of-another-command-only", Apply: func(t *env.Transport, rx *ref.Rx) {
+			if rx == nil || rx.Msg == nil {
+				return
+			}
+			fake := *rx
+			m := *rx.Msg
+			m.NetFn, m.Cmd = 0x06, 0x01
+			if rx.Msg.NetFn == 0x06 && rx.Msg.Cmd == 0x01 {
+				m.Cmd = 0x37
+			}
+			fake.Msg = &m
+			t.Enqueue(t.BMC.Respond(&fake, 0xC0, nil), "stray:busy")
+		}}, Class: clsNothing},
 		{Answer: env.LostReply(), Class: clsNothing},
 		// ordinary retry causes mixed with the socket events above
 		{Answer: env.Code("node-busy", 0xC0), Class: clsTemporary, Code: 0xC0},
